@@ -154,7 +154,7 @@ def main(tier):
         ck.extra.setdefault("code_reached", {}).update({k: v for k, v in o[1].get("reached", {}).items() if k.startswith("jaxley")})
     for can, oc in zip(CANARIES_R, outs[1:]):
         ref = oc[0] == "ok" and not oc[1]["error"] and any(r["status"] != "proved" for r in oc[1]["results"])
-        ck.canaries.append((f"{can[0]}: {can[2][:50]!r} -> {can[3][:60]!r}", ref))
+        ck.canary(f"{can[0]}: {can[2][:50]!r} -> {can[3][:60]!r}", ref, oc)
     ck.trusted = ["JAX reverse-mode AD, scan, checkpoint, vmap are correct (assumed): under that assumption finiteness of all intermediates + absence of derivative-cutting constructs + correct routing imply grad = derivative",
                   "C01: all pivots / denominators of the voltage solve are positive for positive parameters (not repeated here)", "C06: checkpointed and plain scans compute the same values"]
     ck.assumptions += ["agreement with converged finite differences is not checked mechanically (numerical experiment, a different family); this check claims the side conditions only",
